@@ -296,7 +296,8 @@ ReaderRecv ==
     /\ rd = "reading"
     /\ s2c # <<>>
     /\ ~ReaderBusyInline
-    /\ rdq' = Append(rdq, Head(s2c))
+    /\ LET f == Head(s2c) IN        \* (early: taken off the wire before the codec's closed flag was set)
+       rdq' = Append(rdq, [k |-> f.k, seq |-> f.seq, c |-> f.c, err |-> f.err, early |-> ~codecClosed])
     /\ s2c' = Tail(s2c)
     /\ UNCHANGED <<cseq, seqof, pending, closing, shutdown, codecClosed, sockClosed, cst, wq, fin, rd,
                    ncomp, res, res0, ctxst>>
@@ -311,12 +312,14 @@ Via(c, f, dInline) ==
     ELSE "pool"                                       \* global scheduler: any order
 
 \* read(): header decoded; under the mutex look the call up and remove it.
-\* Once the codec's closed flag is set ReadResponseHeader fails and the frame is dropped.
-ReaderDispatch(dInline, dKeep) ==
+\* Once the codec's closed flag is set ReadResponseHeader fails and the frame is dropped (drop). The flag is read without a
+\* lock, ahead of the mutex: for a frame received before the flag was set the decode may have passed that test already, and
+\* the dispatch under the mutex then comes after the close.
+ReaderDispatch(dInline, dKeep, drop) ==
     /\ rdq # <<>>
     /\ ~InlineBusy
+    /\ (drop => codecClosed) /\ (~drop => (~codecClosed \/ Head(rdq).early))
     /\ LET f == Head(rdq)
-           drop == codecClosed
            hit == {c \in pending : seqof[c] = f.seq}
        IN
        /\ rdq' = Tail(rdq)
@@ -522,7 +525,7 @@ LibraryStep ==     \* steps the library takes by itself (fairness applies to the
     \/ \E c \in Calls : \E d1 \in DevChoice("NoRefuseAfterShutdown") : \E d2 \in DevChoice("SeqReuse") : Register(c, d1, d2)
     \/ \E c \in Calls : \E d \in DevChoice("WriteFailAlwaysCompletes") : WriteFailClosed(c, d)
     \/ ReaderRecv
-    \/ \E d1 \in DevChoice("ErrorInline") : \E d2 \in (IF "RemoveAtFinish" \in Dev THEN {TRUE} ELSE DevChoice("DispatchKeepsEntry")) : ReaderDispatch(d1, d2)
+    \/ \E d1 \in DevChoice("ErrorInline") : \E d2 \in (IF "RemoveAtFinish" \in Dev THEN {TRUE} ELSE DevChoice("DispatchKeepsEntry")) : \E drop \in BOOLEAN : ReaderDispatch(d1, d2, drop)
     \/ \E c \in Calls : \E d \in DevChoice("UnorderedFinish") : Finish(c, d)
     \/ \E d1 \in DevChoice("SweepBeforeDrain") : \E d2 \in DevChoice("SweepKeepsEntries") :
             \E d3 \in DevChoice("SweepSkips") : ReaderEOF(FALSE, d1, d2, d3)
